@@ -3,6 +3,7 @@ argument checks, scratch sizing (shared by C03, C05, C10, C11, C14)."""
 import sympy as sp
 
 from . import ast as A
+from . import effects as E
 from . import sym as S
 
 SHAPE = "fidget-core/src/shape/mod.rs"
@@ -149,9 +150,12 @@ def r_axis_binding(rule, root=None):
             rule.lost("Transformable::transform call in %s eval_raw" % label)
             continue
         c = calls[0]
-        args = [A.ftxt(a) for a in c["args"]]
-        want = ["x", "y", "z"] if label == "tracing" else ["x[i]", "y[i]", "z[i]"]
-        if args[:3] == want and args[3] == "t":
+        # what the arguments *are*: names for the converted inputs (`let x = x.into()`, a tuple of them) are
+        # read through; that the fourth is the supplied transform is the transform-cond check below
+        env = E.env_at(fn["body"], c)
+        args = [E.canon(a, env) for a in c["args"][:3]] + [str(A.ftxt(a)) for a in c["args"][3:]]
+        want = [p_ for p_ in params[1:4]] if label == "tracing" else ["x[i]", "y[i]", "z[i]"]
+        if args[:3] == want and len(args) == 4:
             rule.ok("%s: transform(x, y, z, t) in axis order" % label, file=SHAPE, line=c["ln"])
         else:
             rule.bad("%s|transform-args" % label, "%s eval_raw calls transform(%s)" % (label, ", ".join(args)), A.where(fn, c))
@@ -162,12 +166,14 @@ def r_axis_binding(rule, root=None):
             if any(n is c for n in A.walk(cand)):
                 holder = cand
                 break
-        if holder is not None:
+        if holder is None:
+            rule.bad("%s|transform-cond" % label, "the transform must be applied exactly when one is supplied (no `Some(t)` choice found around the call)", A.where(fn, c))
+        else:
             leaves = A.branch_leaves(holder)
             some = [(l, cx) for l, cx in leaves if any(n is c for n in A.walk(l)) or A.strip(l) is c]
             other = [(l, cx) for l, cx in leaves if (l, cx) not in some]
             okp = bool(some) and any(A.some_binding(p) == args[3] and A.option_source(scr) == "transform" for p, scr in some[0][1])
-            el = str(A.ftxt(A.unblock(other[0][0]))) if len(other) == 1 else "?"
+            el = E.canon(A.unblock(other[0][0]), env) if len(other) == 1 else "?"
             if el != "(%s)" % ",".join(want):
                 rule.bad("%s|no-transform" % label, "%s eval_raw without a transform must pass (%s) through unchanged, found %s" % (label, ", ".join(want), el), A.where(fn, holder))
             else:
